@@ -76,21 +76,10 @@ def r1_stop_checks(chk: Check) -> None:
 def r2_failure_limit(chk: Check) -> None:
     chk.rule("C12.R2", "failure limit: count_failure is called for every failed/errored scenario from the consumer side only; the limit flag trips at >= max_failures; later phases are skipped with reason FAILURE_LIMIT_REACHED", floor=8)
     P = chk.project
-    sites = []
-    for fn in P.all_functions():
-        for c in body_calls(fn):
-            if last_attr(c) == "count_failure":
-                sites.append((fn, c))
-    allowed = {f"{UNIT}:execute", f"{ST_EX}:validate_response.on_failure"}
-    seen = set()
-    for fn, c in sites:
-        seen.add(fn.qualname)
-        if fn.qualname in allowed:
-            chk.ok("C12.R2", fn, "count_failure call site", "", fn.loc(c))
-        else:
-            chk.violation("C12.R2", fn, "count_failure call site", "the unsynchronised failure counter is updated from a new place (worker threads race on `_failures_counter += 1`, or failures are counted twice)", fn.loc(c))
-    for q in sorted(allowed - seen):
-        chk.violation("C12.R2", q, "count_failure call site", "failed scenarios of this phase are no longer counted: --max-failures has no effect here", q.split(":")[0])
+    sites = shared.count_failure_sites_rule(
+        chk, "C12.R2",
+        "the unsynchronised failure counter is updated from a new place (worker threads race on `_failures_counter += 1`, or failures are counted twice)",
+        "failed scenarios of this phase are no longer counted: --max-failures has no effect here")
     # unit consumer: counted exactly for ERROR/FAILURE ScenarioFinished, then the loop breaks on has_to_stop
     ue = P.func(f"{UNIT}:execute")
     g = cfg_of(ue)
